@@ -1,6 +1,7 @@
 package checks
 
 import (
+	"runtime"
 	"fmt"
 	"math/rand/v2"
 	"regexp"
@@ -11,6 +12,7 @@ import (
 	"time"
 
 	"github.com/anishathalye/porcupine"
+	"github.com/zishang520/engine.io/v2/events"
 	"github.com/zishang520/engine.io/v2/types"
 	"github.com/zishang520/engine.io/v2/utils"
 
@@ -480,6 +482,114 @@ func idStorm(r *rep.Report, name string, goroutines, per int, gen func() (string
 	}
 }
 
+// registrationStorm: registrations and removals of distinct functions by several goroutines
+// while other goroutines emit the same event.  Operations on different functions commute, so
+// whatever the interleaving, after everything has returned each function is registered exactly
+// (its On calls - its successful RemoveListener calls) times: a final emit calls it that often
+// and ListenerCount agrees.  The event starts absent, present-but-empty (last listener removed,
+// or a fired Once) or populated.
+var stormHits [4]atomic.Int64
+
+func st0(...any) { stormHits[0].Add(1) }
+func st1(...any) { stormHits[1].Add(1) }
+func st2(...any) { stormHits[2].Add(1) }
+func st3(...any) { stormHits[3].Add(1) }
+
+var stormFns = []types.Listener{st0, st1, st2, st3}
+
+func registrationStorm(r *rep.Report, rounds int) {
+	rng := r.Rand(214)
+	for i := 0; i < rounds; i++ {
+		var e types.EventEmitter
+		if i%2 == 0 {
+			e = types.NewEventEmitter()
+		} else {
+			e = events.New()
+		}
+		start := []string{"absent", "emptied-by-remove", "emptied-by-once", "populated"}[rng.IntN(4)]
+		var other atomic.Int64
+		keep := func(...any) { other.Add(1) }
+		wantOther := 0
+		switch start {
+		case "emptied-by-remove":
+			e.On("x", keep)
+			e.RemoveListener("x", keep)
+		case "emptied-by-once":
+			e.Once("x", func(...any) {})
+			e.Emit("x")
+		case "populated":
+			e.On("x", keep)
+			wantOther = 1
+		}
+		const G = 4
+		progs := make([][]bool, G) // true = On, false = RemoveListener
+		for g := range progs {
+			n := 1 + rng.IntN(4)
+			progs[g] = append(progs[g], true)
+			for k := 1; k < n; k++ {
+				progs[g] = append(progs[g], rng.IntN(3) != 0)
+			}
+		}
+		want := make([]int, G)
+		var wg sync.WaitGroup
+		begin := make(chan struct{})
+		var stop atomic.Bool
+		for g := 0; g < G; g++ {
+			wg.Add(1)
+			go func(g int) {
+				defer wg.Done()
+				<-begin
+				for k, on := range progs[g] {
+					for y := 0; y < (g+k)%3; y++ {
+						runtime.Gosched()
+					}
+					if on {
+						if e.On("x", stormFns[g]) == nil {
+							want[g]++
+						}
+					} else if e.RemoveListener("x", stormFns[g]) {
+						want[g]--
+					}
+				}
+			}(g)
+		}
+		var ew sync.WaitGroup
+		for g := 0; g < 3; g++ {
+			ew.Add(1)
+			go func() {
+				defer ew.Done()
+				<-begin
+				for !stop.Load() {
+					e.Emit("x")
+				}
+			}()
+		}
+		close(begin)
+		wg.Wait()
+		stop.Store(true)
+		ew.Wait()
+		for g := range stormHits {
+			stormHits[g].Store(0)
+		}
+		other.Store(0)
+		e.Emit("x")
+		total := wantOther
+		r.Obs("registration_storm_rounds", 1)
+		r.Obs("registration_storm_start:"+start, 1)
+		for g := 0; g < G; g++ {
+			total += want[g]
+			if int(stormHits[g].Load()) != want[g] {
+				r.Violationf("emitter-registration-lost-under-concurrent-emit", map[string]any{"start": start, "programs": progs}, "event %s before the storm; goroutine %d registered its function (On returned nil) %d times net of successful removals, concurrent emits running; the final emit called it %d times", start, g, want[g], stormHits[g].Load())
+				break
+			}
+		}
+		if int(other.Load()) != wantOther || e.ListenerCount("x") != total {
+			r.Violationf("emitter-registration-lost-under-concurrent-emit", map[string]any{"start": start, "programs": progs}, "event %s before the storm: ListenerCount %d, expected %d; the pre-existing listener ran %d times, expected %d", start, e.ListenerCount("x"), total, other.Load(), wantOther)
+		}
+	}
+	r.Case("registration-storm", true)
+}
+
 func onceStorm(r *rep.Report, rounds int) {
 	for i := 0; i < rounds; i++ {
 		e := types.NewEventEmitter()
@@ -566,6 +676,7 @@ func TestC20(t *testing.T) {
 	checkHistories(r, "Set", nh/2, setModel, concSetHistory, 211)
 	checkHistories(r, "Slice", nh/2, sliceModel, concSliceHistory, 212)
 	onceStorm(r, r.N(400, 20000))
+	registrationStorm(r, r.N(4000, 200000))
 
 	per := r.N(16*4000, 16*200000) / 16
 	idStorm(r, "base64id", 16, per, func() (string, error) { return utils.Base64Id().GenerateId() })
